@@ -117,6 +117,33 @@ where
             }
             Ok(())
         });
+        // other format flags do not add anything to the output ("... and nothing else"): width, fill,
+        // alignment, sign, `#` and `0` leave exactly the (precision-truncated) digits
+        st.check_case("C14", "hex.flags", feature, || format!("C14 hex.flags [{feature}] N={n} pattern={pat}"), n > 0, || {
+            std::hint::black_box(poison_stack(0xF5));
+            let cut = |p: usize| p.min(2 * n);
+            let w = 2 * n + 9;
+            let got: Vec<(String, String, &str)> = vec![
+                (format!("{:w$x}", arr, w = w), full_l.clone(), "{:w$x}"),
+                (format!("{:>w$X}", arr, w = w), full_u.clone(), "{:>w$X}"),
+                (format!("{:<w$x}", arr, w = w), full_l.clone(), "{:<w$x}"),
+                (format!("{:*^w$X}", arr, w = w), full_u.clone(), "{:*^w$X}"),
+                (format!("{:0w$x}", arr, w = w), full_l.clone(), "{:0w$x}"),
+                (format!("{:#x}", arr), full_l.clone(), "{:#x}"),
+                (format!("{:#X}", arr), full_u.clone(), "{:#X}"),
+                (format!("{:+x}", arr), full_l.clone(), "{:+x}"),
+                (format!("{:w$.7x}", arr, w = w), full_l[..cut(7)].to_string(), "{:w$.7x}"),
+                (format!("{:>w$.3X}", arr, w = w), full_u[..cut(3)].to_string(), "{:>w$.3X}"),
+                (format!("{:8.0x}", arr), String::new(), "{:8.0x}"),
+                (format!("{:#012.5X}", arr), full_u[..cut(5)].to_string(), "{:#012.5X}"),
+            ];
+            for (g, want, spec) in got {
+                if g != want {
+                    return Err(format!("FlagsMismatch: {spec} prints {} characters ({:?}...), the digits alone are {} ({:?}...)", g.len(), &g[..g.len().min(24)], want.len(), &want[..want.len().min(24)]));
+                }
+            }
+            Ok(())
+        });
         let ps = precisions(n, &mut rng, args.thorough());
         for p in ps {
             st.check_case("C14", "hex.precision", feature, || format!("C14 hex.precision [{feature}] N={n} pattern={pat} p={p}"), n > 0, || {
